@@ -9,7 +9,7 @@ import (
 
 func init() {
 	register(&propDef{
-		ID: "C13", Level: "other", Run: withShared(runC13, share{"C01", runC01, chipMoverInvariant}, share{"C12", runC12, ruleIs("wager-monotone")}),
+		ID: "C13", Level: "other", Run: withShared(runC13, share{"C01", runC01, chipMoverInvariant}, share{"C12", runC12, ruleIs("wager-monotone")}, share{"C11", runC11, ruleIs("pay-facts")}),
 		Explanation: "The per-seat blind payment is extracted as a decision table and compared on a grid with: pay the big blind iff BB > 0 and the seat holds bb, else the small blind iff SB > 0 and it holds sb, else the dealer blind iff Dealer > 0 and it holds dealer, else nothing — each capped by the stack and paid through the chip mover as a wager; the table layer waits on exactly the seats the engine charges; the blinds wait point is bypassed only when every blind field is zero; the ante is paid as a non-wager by every player and swept into the pot (pots published, player and round status reset) before preflop; the minimum raise after the blinds is the big blind (dealer blind if none) and the minimum bet the larger of dealer blind and big blind.",
 		Trusted:     commonTrusted,
 		Assumptions: []string{"grid 0..3 for blind sizes and the stack; all eight position combinations"},
@@ -203,6 +203,7 @@ func runC13(c *Ctx) {
 		c.touch(fnKey(ga))
 		c.check(loopsOverAllPlayers(c, ga, "PayAnte"), "ante", fnKey(ga)+"#all-players", p.FnPos(ga), "every player is asked for the ante (full range over GetPlayers())", "not every player pays the ante")
 	}
+	runC13PlayerRing(c, ea)
 	gb := p.Func("pokerface", ea.gameImpl, "PayBlinds")
 	if gb != nil {
 		c.touch(fnKey(gb))
